@@ -128,7 +128,7 @@ def _cvc5_check(text, timeout_ms):
         slv.setOption('tlimit-per', str(timeout_ms))
         slv.setOption('produce-models', 'false')
         parser = cvc5.InputParser(slv)
-        parser.setStringInput(cvc5.InputLanguage.SMT_LIB_2_6, text.replace('(check-sat)', ''), 'obl')
+        parser.setStringInput(cvc5.InputLanguage.SMT_LIB_2_6, '(set-logic ALL)\n' + text.replace('(check-sat)', ''), 'obl')
         sm = parser.getSymbolManager()
         while True:
             cmd = parser.nextCommand()
